@@ -353,8 +353,11 @@ func (p *asyncProducer) dispatcher() {
 			p.inFlight.Add(1)
 		}
 
-		for _, interceptor := range p.conf.Producer.Interceptors {
-			msg.safelyApplyInterceptor(interceptor)
+		if msg.retries == 0 {
+			// only on the first pass: retried messages and the internal markers that travel with them come by again
+			for _, interceptor := range p.conf.Producer.Interceptors {
+				msg.safelyApplyInterceptor(interceptor)
+			}
 		}
 
 		version := 1
